@@ -22,6 +22,7 @@ MANIFEST = {
     'technique': 'offline history checker over per-process event logs (unique noise digests per member, recomputed member mean), delay injection for schedule diversity',
 }
 LOGGER_ON_ODD_SHARDS = 'quarter'   # (sifting logs heavily: a quarter of the shards run with the logger set up)
+SESSION_NOISE = True      # every shard starts after unrelated session activity (harness.session_noise)
 BUDGET_S = {'quick': 80, 'thorough': 540}
 NCASES = {'quick': 400, 'thorough': 6000}
 RULE = ('seeded random signals (100..250 samples) x variant {ensemble, complete ensemble} x nensembles 1..8 x nprocesses '
@@ -108,6 +109,19 @@ def check_noise_distinct(ctx, L, flip, nens, noise_level, case, label, later_lay
             # scalar multiples (shared realisation, different scale) are not independent either
             c = float(np.dot(a, b) / np.dot(b, b))
             mult = np.abs(a - c * b).max() <= 1e-9 * np.abs(a).max()
+            shifted = None
+            if not (same or mult):
+                # a realisation that is a shifted copy of another one is not an independent realisation either
+                for lag in range(1, 17):
+                    if np.array_equal(a[lag:], b[:-lag]) or np.array_equal(b[lag:], a[:-lag]):
+                        shifted = lag
+                        break
+                if shifted is None and len(np.intersect1d(a, b)) > 0.5 * len(a):
+                    shifted = -1
+            if shifted is not None:
+                ctx.violation('overlapping-noise', '%s: the noise of members %d and %d shares its samples (%s) - they are not independent realisations'
+                              % (label, i, j, 'one is the other shifted by %d samples' % shifted if shifted > 0 else 'more than half of the values coincide'), case)
+                return False
             if same or mult:
                 pids = (L['members'][i]['pid'], L['members'][j]['pid'])
                 ctx.violation('duplicate-noise' + (':across-workers' if pids[0] != pids[1] else ':same-worker'),
@@ -216,7 +230,7 @@ def check_case(ctx, tr, case):
 
 
 def gen_case(rng):
-    fam = gens.pick(rng, ['noise', 'walk', 'tones', 'amfm'])
+    fam = gens.pick(rng, ['noise', 'walk', 'tones', 'amfm', 'spikes', 'periodic'])
     n = int(rng.integers(100, 251)) if rng.random() < .65 else int(rng.integers(20, 70))   # short records: members differ in IMF count
     x = gens.signal(rng, fam, n)
     io = gens.imf_opts(rng)
